@@ -102,6 +102,8 @@ class QuietTail:
         for n in self.world.nodes.values():
             n.kernel.inject.clear()
             n.sendto_fail.clear()
+            n.recv_fail['udp'].clear()
+            n.recv_fail['nl'].clear()
             n.crash_countdown = None
             n.stalled_until = min(n.stalled_until, self.world.now)
         self.world.net.partitioned.clear()
